@@ -1,4 +1,7 @@
+import Hannibal.Props.C07OCurrent
 import Hannibal.Props.C07Current
 #print axioms Hannibal.C07_holds
 #print axioms Hannibal.C07_current
 #print axioms Hannibal.wellWired07_current
+#print axioms Hannibal.C07o_holds
+#print axioms Hannibal.C07o_current
